@@ -96,6 +96,8 @@ def gen_definition(rng, tag):
     d.tag = tag
     pars = []          # [name, units, default, [lo, hi], type, desc]
     nvol = rng.choice([0, 1, 1, 2, 2, 3])
+    if tag == 5:
+        nvol = max(nvol, 1)      # the sixth is hollow with its shell volume as an inline string next to C code
     if tag == 2:
         nvol = max(nvol, 2)      # the third takes the un-normalised two-parameter mesh with a cutoff
     if tag in (0, 1):
@@ -143,8 +145,9 @@ def gen_definition(rng, tag):
     d.vectorized = rng.random() < 0.6
     # a scalar (point-by-point) kernel may treat the origin apart and write the limit there as a whole number:
     # "if q == 0: return 1".  The q vectors of such a definition start at the origin.
-    d.block_style = rng.random() < 0.4 or tag in (0, 3, 4)
+    d.block_style = rng.random() < 0.4 or tag in (0, 3, 4, 5)
     d.file_style = tag in (3, 4)
+    d.mixed_style = tag == 5 or (d.block_style and not d.file_style and tag not in (0,) and rng.random() < 0.3)
     if tag == 2:
         d.vectorized = False
     d.origin_int = (not d.vectorized) and (rng.random() < 0.6 or tag == 2)
@@ -153,7 +156,7 @@ def gen_definition(rng, tag):
     if rng.random() < 0.3:
         d.Iqxy = ("+", gen_expr(rng, iq_vars + ["qx", "qy"], 2, scalars), ("*", ("var", "qx"), ("var", "qy")))
     d.form_volume = ("+", ("num", 1.0), pos_expr(rng, vol_vars, 2)) if vol_vars else None
-    d.shell_volume = ("+", ("num", 0.5), pos_expr(rng, vol_vars, 2)) if vol_vars and (rng.random() < 0.4 or tag == 0) else None
+    d.shell_volume = ("+", ("num", 0.5), pos_expr(rng, vol_vars, 2)) if vol_vars and (rng.random() < 0.4 or tag in (0, 5)) else None
     d.modes = []
     if vol_vars and rng.random() < 0.5:
         d.modes = [pos_expr(rng, vol_vars, 2) for _ in range(rng.randint(1, 3))]
@@ -196,7 +199,10 @@ def c_module(d, name):
         code.append("/* generated definition: volumes */")
         if d.form_volume:
             code.append("static double form_volume(%s) { return %s; }" % (", ".join(sig(d, "vol", True)), show(d.form_volume, False)))
-        if d.shell_volume:
+        if d.shell_volume and getattr(d, "mixed_style", False):
+            # ... except the shell volume, which this definition gives as an inline body string next to the C text
+            t.append('shell_volume = "return %s;"' % show(d.shell_volume, False))
+        elif d.shell_volume:
             code.append("/* hollow: the shell volume normalises */")
             code.append("static double shell_volume(%s) { return %s; }" % (", ".join(sig(d, "vol", True)), show(d.shell_volume, False)))
         code.append("/* intensity */")
